@@ -50,6 +50,9 @@ func Gen(seed int64, label string, k int, realTime bool) *Scenario {
 		if r.Chance(1, 4) {
 			sc.PauseRead[d] = 1 + r.Intn(sc.Bytes[d]+1)
 			sc.PauseMs[d] = []int{50, 500, 3000}[r.Intn(3)]
+			if r.Chance(1, 3) {
+				sc.GrowRcvBuf[d] = []int{16384, 65536, 1 << 20}[r.Intn(3)]
+			}
 		}
 		switch r.Intn(6) {
 		case 0: // clean
@@ -72,7 +75,10 @@ func Gen(seed int64, label string, k int, realTime bool) *Scenario {
 		}
 	}
 	// initial sequence numbers: random, or placed so that the stream crosses 2^31 / 2^32
-	place := func(total int) *uint32 {
+	place := func(total, rcvbuf int) *uint32 {
+		if rcvbuf == 0 {
+			rcvbuf = 1 << 20 // the stack's default
+		}
 		var target uint32
 		switch r.Intn(4) {
 		case 0:
@@ -83,16 +89,21 @@ func Gen(seed int64, label string, k int, realTime bool) *Scenario {
 			target = 0 // 2^32
 		}
 		delta := uint32(1 + r.Intn(total+2))
-		if r.Chance(1, 3) {
+		switch r.Intn(3) {
+		case 0:
 			delta = uint32(1 + r.Intn(3))
+		case 1:
+			// more than one receive window below the boundary: the window's right edge crosses it
+			// later than the connection's first byte does, with the left edge still below
+			delta += uint32(rcvbuf)
 		}
 		v := target - delta
 		return &v
 	}
 	if r.Bool() {
-		sc.ISS = place(sc.Bytes[0])
+		sc.ISS = place(sc.Bytes[0], sc.RcvBuf[1])
 	} else if r.Bool() {
-		sc.PassiveISS = place(sc.Bytes[1])
+		sc.PassiveISS = place(sc.Bytes[1], sc.RcvBuf[0])
 	}
 	sc.Close = []string{"AB", "BA", "sim"}[r.Intn(3)]
 	if realTime {
